@@ -24,6 +24,12 @@ type c07Item struct {
 	Eval       func(g c07Group) (float64, bool) // ok=false: NULL
 }
 
+// c07Unspec: the property does not fix the item's value for this group (percentile over no usable input);
+// such (query, dataset) pairs are skipped
+var c07Unspec = map[string]func(g c07Group) bool{
+	"sp": func(g c07Group) bool { return len(ref.Usable(g.V)) == 0 },
+}
+
 func agg1(f func([]float64) float64, vs []ref.Val) (float64, bool) {
 	xs := ref.Usable(vs)
 	if len(xs) == 0 {
@@ -49,6 +55,18 @@ var c07Items = []c07Item{
 		return a - b, ok && ok2
 	}},
 	{"count(*) AS n", "n", func(g c07Group) (float64, bool) { return float64(len(g.V)), true }},
+	// the same parameterised aggregate twice on one column, differing only in the later argument
+	{"percentile(v, 1) - percentile(v, 0) AS sp", "sp", func(g c07Group) (float64, bool) {
+		a, ok := agg1(ref.Max, g.V)
+		b, _ := agg1(ref.Min, g.V)
+		return a - b, ok
+	}},
+	// the same aggregate on two columns
+	{"sum(v) - sum(w2) AS sd2", "sd2", func(g c07Group) (float64, bool) {
+		a, ok := agg1(ref.Sum, g.V)
+		b, ok2 := agg1(ref.Sum, g.W2)
+		return a - b, ok && ok2
+	}},
 }
 
 type c07Having struct {
@@ -171,7 +189,7 @@ func hasAll(items []int, need []int) bool {
 }
 
 func c07Progs(tier string) []c07Prog {
-	itemSets := [][]int{{0}, {1}, {2}, {3}, {4}, {5}, {6}, {0, 7}, {0, 1, 4}, {7, 0, 2}, {0, 6, 7}}
+	itemSets := [][]int{{0}, {1}, {2}, {3}, {4}, {5}, {6}, {8}, {9}, {0, 7}, {0, 1, 4}, {7, 0, 2}, {0, 6, 7}, {8, 4}, {9, 0}}
 	var out []c07Prog
 	for _, its := range itemSets {
 		for h := range c07Havings {
@@ -465,6 +483,17 @@ func (c07) Run(u fw.Unit) fw.Result {
 		}
 		sql := p.SQL()
 		for di, ds := range dss {
+			unspec := false
+			for _, i := range p.Items {
+				for _, g := range ds {
+					if f := c07Unspec[c07Items[i].Alias]; f != nil && f(g) {
+						unspec = true
+					}
+				}
+			}
+			if unspec {
+				continue
+			}
 			r := detExec(sql, detOpts{}, c07Feed(ds))
 			a.r.Evaluations++
 			a.r.States++
